@@ -1553,6 +1553,18 @@ func TestVxC09SchemaRoutingKey(t *testing.T) {
 				pos := rapid.IntRange(0, len(binds)).Draw(t, "extrapos")
 				binds = append(binds[:pos:pos], append([]string{"other"}, binds[pos:]...)...)
 			}
+			if len(pk) > 0 && rapid.IntRange(0, 3).Draw(t, "casetwin") == 0 {
+				// a column whose name differs from a key column's in letter case only (quoted identifiers are case
+				// sensitive: "ID" and id are two columns), bound first
+				twin := strings.ToUpper(pk[rapid.IntRange(0, len(pk)-1).Draw(t, "twinof")])
+				isKey := false
+				for _, p := range pk {
+					isKey = isKey || p == twin
+				}
+				if !isKey {
+					binds = append([]string{twin}, binds...)
+				}
+			}
 			if len(binds) > 0 && rapid.IntRange(0, 4).Draw(t, "dup") == 0 {
 				// the same column bound twice (pk = ? AND pk = ?): the code documents "pick the first"
 				binds = append(binds, binds[rapid.IntRange(0, len(binds)-1).Draw(t, "dupwhich")])
